@@ -61,7 +61,7 @@ def r_contexts(ctx):
     for f, bid, c, t in sites:
         ctx.saw(f)
         ctx.ob(rid, 'context-new:' + f.path, f.path in allowed, 'inference context created in %s' % f.path, f.where(t['line']))
-    ctx.floor(rid, 'Context::new call sites', len(sites), 3)
+    ctx.floor(rid, 'Context::new call sites', len(sites), 2)
 
 
 def check(ctx):
